@@ -213,6 +213,7 @@ fn alphabet() -> Vec<Op> {
         Op::PointsPop,
         Op::SetLen(Some(30.0)),
         Op::SetLen(None),
+        Op::SetLen(Some(0.0)),
         Op::ClearCurve,
         Op::NewPath(p[4].clone()),
         Op::NewPath(p[0].clone()),
@@ -242,7 +243,7 @@ fn gen_spec(t: &mut Tape) -> Spec {
         0 => None,
         1 => Some(1.0 + t.unit() * 60.0),
         2 => Some(100.0 + t.unit() * 900.0),
-        _ => Some(*t.pick(&[1e-3, 131072.0, 0.5])),
+        _ => Some(*t.pick(&[1e-3, 131072.0, 0.5, 0.0, -4.0, 1e-300])),
     };
     Spec { mode, pts, len }
 }
@@ -261,10 +262,13 @@ fn gen_ops(t: &mut Tape) -> Vec<Op> {
             7 => Op::PointsPush(t.int(0, 512) as f32, t.int(0, 384) as f32, *t.pick(&[None, None, Some(PathType::BEZIER), Some(PathType::LINEAR), Some(PathType::CATMULL), Some(PathType::PERFECT_CURVE)])),
             8 => Op::PointsPop,
             9 => Op::PointsMoveLast(t.int(0, 512) as f32, t.int(0, 384) as f32),
-            10 => Op::SetLen(match t.below(3) {
+            10 => Op::SetLen(match t.below(5) {
                 0 => None,
                 1 => Some(5.0 + t.unit() * 80.0),
-                _ => Some(300.0 + t.unit() * 400.0),
+                2 => Some(300.0 + t.unit() * 400.0),
+                // degenerate requests (the API accepts any value): the curve collapses to its first point
+                3 => Some(*t.pick(&[0.0, -1.0, -250.0, 1e-300])),
+                _ => Some(*t.pick(&[1e-3, 0.5, 131072.0])),
             }),
             _ => Op::ClearCurve,
         })
@@ -276,7 +280,7 @@ fn ops_json(ops: &[Op]) -> Value {
 }
 
 pub fn run(ctx: &mut Ctx) {
-    ctx.rule = "cases are operation sequences over one shared CurveBuffers and one SliderPath: compute owned / borrowed / via the path cache (curve, curve_with_bufs, borrowed_curve), replace the path, mutate points (clear/push/pop/move) or the requested length through the accessors, clear the cache. Exhaustive: all sequences over a 20-op alphabet (pool of 6 lists: empty, single point, line, arc, multi-segment Bezier, Catmull) up to the stated length; random: up to 40 ops with generated lists. Oracle: every curve returned is bit-identical (path and lengths) to Curve::new with fresh buffers on the data held at that moment; empty list gives ([], [0.0]). Non-trivial = >= 2 computations in the sequence (shared buffers reused) incl. mutation between cached accesses; distinct by construction / by hash of the op list.".into();
+    ctx.rule = "cases are operation sequences over one shared CurveBuffers and one SliderPath: compute owned / borrowed / via the path cache (curve, curve_with_bufs, borrowed_curve), replace the path, mutate points (clear/push/pop/move) or the requested length through the accessors, clear the cache. Exhaustive: all sequences over a 21-op alphabet (pool of 6 lists: empty, single point, line, arc, multi-segment Bezier, Catmull) up to the stated length; random: up to 40 ops with generated lists. Oracle: every curve returned is bit-identical (path and lengths) to Curve::new with fresh buffers on the data held at that moment; empty list gives ([], [0.0]). Non-trivial = >= 2 computations in the sequence (shared buffers reused) incl. mutation between cached accesses; distinct by construction / by hash of the op list.".into();
     crate::props::replay_regress_generic(ctx, replay);
     let alpha = alphabet();
     let k = alpha.len() as u64;
